@@ -55,8 +55,9 @@ def main():
             continue
         if r["kind"] == "seed":
             caught = {p: v for p, v in r["results"].items() if v["rc"] == 1 and v["rules"]}
-            verdict = "; ".join("%s %s" % (p, ",".join(v["rules"])) for p, v in sorted(caught.items())) or "MISSED"
-            if not caught:
+            meta = json.load(open(os.path.join(VERIF, "seeded", n, "meta.json")))
+            verdict = "; ".join("%s %s" % (p, ",".join(v["rules"])) for p, v in sorted(caught.items())) or ("missed (documented limit)" if meta.get("expected_miss") else "MISSED")
+            if not caught and not meta.get("expected_miss"):
                 bad += 1
         else:
             noisy = {p: v for p, v in r["results"].items() if v["rc"] != 0}
